@@ -156,7 +156,10 @@ def attempt {α : Type} (m : M α) : M (Except Err α) := fun p =>
   | .err e p' => .ok (.error e) p'
 
 def instanceOf (braceBlock : Nat) (id : Nat) (t : Option Tok) : Node :=
-  if id = T_LBRACE ∧ braceBlock > 0 then Node.mk "" t 0 .block .none [] []
+  -- astNodeBlockBrace: only ends a guard expression (binding 0); it has NO null denotation
+  -- (fixes/C07-brace-in-guard.patch; before, its null denotation was parseInnerStatements and
+  -- `if [ { { a } ] { }` returned a tree with a nameless node wrapping a statements node)
+  if id = T_LBRACE ∧ braceBlock > 0 then Node.mk "" t 0 .none .none [] []
   else match table id with
     | some (n, b, x, l) => Node.mk n t b x l [] []
     | none => Node.mk "?" t 0 .none .none [] []
